@@ -17,7 +17,8 @@ CONSTANTS Capacity, FixAbsent, FixEqWrite, FixTopLevel, SharedKeys,
 KeyOrderAB == <<"A", "B">>      \* cfg: KeyOrder <- KeyOrderAB
 
 \* C04: with SharedKeys the cache key forgets the module ("twin:a" and "twin:b" share "twin")
-KeyOfNode(n) == IF SharedKeys /\ n \in {"twin:a", "twin:b"} THEN "twin" ELSE n
+Twins == {"twin:a", "twin:b", "twin:c", "twin:d"}
+KeyOfNode(n) == IF SharedKeys /\ n \in Twins THEN "twin" ELSE n
 
 IsRaw(n) == n # "pair"       \* `pair` is a non-raw #[memo]: the caller gets &T, no MemoRef to retain / look up
 
@@ -31,7 +32,7 @@ B == INSTANCE PicoB WITH KeyOf <- KeyOfNode
 \* state is part of the view, so two histories are merged only if they also leave the variant in the
 \* same state: every history that the modelled and the variant implementation distinguish gets its own
 \* replay, which makes a regression to that variant show up in the exhaustive part of the check.
-KeyOfShadow(n) == IF SShared /\ n \in {"twin:a", "twin:b"} THEN "twin" ELSE n
+KeyOfShadow(n) == IF SShared /\ n \in Twins THEN "twin" ELSE n
 BO == INSTANCE PicoB WITH KeyOf <- KeyOfShadow, FixAbsent <- SFixAbsent, FixEqWrite <- SFixEqWrite, FixTopLevel <- SFixTopLevel
 
 VARIABLES db,     \* layer B state
